@@ -66,6 +66,11 @@ def run(facts, rep, tier, ctx):
         if o["rule"] == "M":
             rep.ob("R11.8", o["fn"], o["key"].split("|")[2], o["ok"], o["detail"], o["loc"])
     c10.marker_rules(facts, rep, ws, prefix="R11.8", only=("R10.1", "R10.5", "R10.3"))
+    # "no trace of the source": after a move / remove_dir_all through an overlay the source must be gone for *every* observer, and
+    # metadata / open_file / read_dir (hence a second transfer from the old path) go through the resolver without asking exists()
+    # first — the resolver itself has to look at the path's deletion marker before any layer (C09 R09.3)
+    from . import c09 as _c09r
+    _c09r.resolver_rules(facts, rep, ws, rule="R11.8r")
     # remove_dir_all / move_dir on an overlay succeed only while the markers they write are the ones read_dir subtracts: both
     # sides build the marker path relative to the write layer
     from . import c09 as _c09
@@ -100,5 +105,16 @@ def run(facts, rep, tier, ctx):
                 k += 1
                 A.ob("R11.8", o["fn"], o["key"].split("|")[2], o["ok"], o["detail"], o["loc"])
         k += c10.marker_rules(facts, A, wa, prefix="R11.8", only=("R10.1", "R10.5", "R10.3"))
+        k += _c09r.resolver_rules(facts, A, wa, rule="R11.8r")
         rep.floor("async-world transfer obligations", k, 120)
+    # R11.10 a copy whose source is the embedded (read-only) backend copies what that backend lists and serves: its directory index
+    # registers every ancestor of every file exactly once, under its own parent, and the observers answer from the index only
+    # (C18 R18.3/R18.5) — a bogus root entry makes walk_dir visit a subtree twice and copy_dir fail half-way
+    if any(b_.impl and b_.impl["self_ty"].startswith("impls::embedded::") for b_ in facts.bodies):
+        from . import c18 as _c18e
+        scr_e = Report("z")
+        _c18e.run(facts, scr_e, "quick", ctx)
+        for o in scr_e.obligations:
+            if o["rule"] in ("R18.3", "R18.5"):
+                rep.ob("R11.10", o["fn"], o["key"].split("|")[2], o["ok"], o["detail"], o["loc"])
     rep.assume("copy_dir/move_dir into the source's own subtree is excluded by the property")
